@@ -27,7 +27,11 @@ def main():
             out['error'] = 'patch does not apply: ' + r.stdout[-500:]
             print(out['error'])
             return out
-        sh('rsync -a --exclude build --exclude .git --exclude evidence /verif/ %s/' % verif)
+        # The committed state of /verif (not the working tree, which may be mid-edit).
+        os.makedirs(verif)
+        r = sh('git -C /verif archive HEAD | tar -x -C %s' % verif)
+        if r.returncode != 0:
+            sys.exit('archive: ' + r.stdout)
         cargo = open(os.path.join(verif, 'harness', 'Cargo.toml')).read().replace('path = "/repo"', 'path = "%s"' % repo)
         open(os.path.join(verif, 'harness', 'Cargo.toml'), 'w').write(cargo)
         env = dict(os.environ, VERIF_REPO=repo)
